@@ -1,16 +1,18 @@
 #!/bin/sh
-# usage: tools/try_seed.sh <patch.diff> <Cnn> [<Cnn>...]  -- apply a seeded change to /repo, run the quick checks, undo it
+# usage: tools/try_seed.sh <patch.diff> <Cnn> [<Cnn>...]  -- apply a seeded change to the repository under test (VERIF_REPO, default
+# /repo), run the quick checks, undo it
 patch="$1"; shift
-cd /repo || exit 2
-if ! git diff --quiet; then echo "/repo has local changes"; exit 2; fi
-git apply --3way "$patch" 2>/dev/null || git apply "$patch" || { echo "patch does not apply"; exit 2; }
-git reset -q
-cd /verif
+V="$(cd "$(dirname "$0")/.." && pwd)"
+R="${VERIF_REPO:-/repo}"
+cd "$R" || exit 2
+if git rev-parse --git-dir >/dev/null 2>&1 && ! git diff --quiet; then echo "$R has local changes"; exit 2; fi
+git apply "$patch" || { echo "patch does not apply"; exit 2; }
+cd "$V"
 for p in "$@"; do
   timeout 1800 ./check "$p" --tier "${TIER:-quick}" 2>&1 | tail -4
   echo "exit=$?"
 done
-git -C /repo checkout -- . && git -C /repo clean -fdq
+(cd "$R" && git apply -R "$patch") || echo "COULD NOT REVERT $patch in $R"
 # the runs above rewrote generated files and evidence from the patched tree: restore the committed ones
-git -C /verif checkout -- coq/theories/Facts.v coq/theories/SrcConsts.v coq/theories/BlockFacts.v evidence 2>/dev/null
-for f in /verif/coq/theories/Gen[A-Z]*.v /verif/coq/gotrans_index.json; do case "$f" in *GenTie*) ;; *) git -C /verif checkout -- "$f" 2>/dev/null;; esac; done
+git -C "$V" checkout -- coq/theories/Facts.v coq/theories/SrcConsts.v coq/theories/BlockFacts.v coq/gotrans_index.json evidence 2>/dev/null
+for f in "$V"/coq/theories/Gen[A-Z]*.v; do case "$f" in *GenTie*) ;; *) git -C "$V" checkout -- "$f" 2>/dev/null;; esac; done
